@@ -28,7 +28,7 @@ for id in "$@"; do
   pkg=$(echo "$id" | tr A-Z a-z)
   race=""; [ "$id" = C05 ] && race="-race"
   out=$(cd "$hc/harness" && VERIF_ROOT="$hc/root" VERIF_TIER="${TIER:-quick}" VERIF_SEED="${VERIF_SEED:-1}" VERIF_SHRINKTIME=5s \
-        timeout 900 go test $race -tags verif -count=1 -run '^TestProp' ./"$pkg" 2>&1)
+        timeout 3600 go test $race -tags verif -count=1 -timeout 3500s -run '^TestProp' ./"$pkg" 2>&1)
   if echo "$out" | grep -q "^VIOLATION"; then
     echo "$id: CAUGHT"; echo "$out" | grep -A1 "^VIOLATION" | head -4 | cut -c1-400
   else
